@@ -88,9 +88,12 @@ PaintTab == [ black  |-> [rgb |-> <<0,0,0>>,     a |-> 255, pm |-> <<0,0,0,255>>
               \* a linear gradient whose stops all have this colour (exact expectation; exercises the gradient branch of the rasterizer)
               ggrey  |-> [rgb |-> <<128,128,128>>, a |-> 255, pm |-> <<128,128,128,255>>],
               \* a translucent paint whose channels differ from each other and from alpha (raster scenes only; rgb is the rounded un-premultiplied value)
-              tbrown |-> [rgb |-> <<201,100,60>>, a |-> 127, pm |-> <<100,50,30,127>>] ]
-PaintNames == <<"black","red","redh","dred","blue","blueh","green","grey","ggrey","tbrown">>
-Grads == {"ggrey"}
+              tbrown |-> [rgb |-> <<201,100,60>>, a |-> 127, pm |-> <<100,50,30,127>>],
+              \* a radial gradient (concentric circles around the page centre) whose stops all have this colour
+              rgrey  |-> [rgb |-> <<128,128,128>>, a |-> 255, pm |-> <<128,128,128,255>>] ]
+PaintNames == <<"black","red","redh","dred","blue","blueh","green","grey","ggrey","tbrown","rgrey">>
+Grads == {"ggrey", "rgrey"}
+RadialGrads == {"rgrey"}
 \* joins: 0 miter limit 4 | 1 miter limit 10 | 2 bevel | 3 round | 4 miter-clip limit 4 | 5 arcs limit 4
 JoinKind(j) == CASE j \in {0,1} -> "miter" [] j = 2 -> "bevel" [] j = 3 -> "round" [] j = 4 -> "miterclip" [] j = 5 -> "arcs"
 JoinLimit(j) == IF j = 1 THEN 10 ELSE 4
@@ -99,7 +102,7 @@ ImgW == 2
 ImgH == 3
 
 Header == [hdr |-> TRUE, W |-> CW, H |-> CH, shapes |-> Shapes, views |-> Views, paints |-> PaintTab,
-           grads |-> Grads, ells |-> Ells, dashes |-> <<DashArr(0), DashArr(1), DashArr(2)>>, joinlimit |-> <<4,10,4,4,4,4>>, imgw |-> ImgW, imgh |-> ImgH]
+           grads |-> Grads, rgrads |-> RadialGrads, ells |-> Ells, dashes |-> <<DashArr(0), DashArr(1), DashArr(2)>>, joinlimit |-> <<4,10,4,4,4,4>>, imgw |-> ImgW, imgh |-> ImgH]
 
 \* ---------------------------------------------------------------------------------------------
 \* draws and programs
@@ -113,7 +116,7 @@ GeomC12(arcs) == [shape: IF arcs THEN C12Shapes ELSE {1,2,3,4,5,6}, view: C12Vie
 Mk(st, g) == [shape |-> g.shape, view |-> g.view, cs |-> 0, fill |-> st.fill, stroke |-> st.stroke, width |-> st.width, cap |-> st.cap,
               join |-> st.join, dash |-> st.dash, off |-> st.off, rule |-> st.rule, img |-> st.img]
 RawDraws == [shape: IF Mode = "rande" THEN (1..11) \cup {21, 22, 23} ELSE 1..11,      \* "rande": with the rotated ellipses (small integer resolutions)
-             view: {1,2,3,4,5,6,8}, cs: 0..3, fill: {"none","red","green","grey","black","ggrey","tbrown"}, stroke: {"none","none","blue"},
+             view: {1,2,3,4,5,6,8}, cs: 0..3, fill: {"none","red","green","grey","black","ggrey","tbrown","rgrey"}, stroke: {"none","none","blue"},
              width: {1,2}, cap: {0}, join: {2,3}, dash: {0}, off: {0}, rule: 0..3, img: {0}]             \* C14 scenes
 \* a draw without fill and stroke records nothing (Context.DrawPath returns): repaired to a black fill
 \* (a dash offset without a dash array is kept out of the bulk programs: the pdf back-end does not terminate on a negative one --
